@@ -44,6 +44,7 @@ func generateInitiateTag() uint32 {
 var (
 	ErrChunk                         = errors.New("abort chunk, with following errors")
 	ErrShutdownNonEstablished        = errors.New("shutdown called in non-established state")
+	ErrShutdownIncomplete            = errors.New("association ended before the shutdown sequence completed")
 	ErrAssociationClosedBeforeConn   = errors.New("association closed before connecting")
 	ErrAssociationClosed             = errors.New("association closed")
 	ErrSilentlyDiscard               = errors.New("silently discard")
@@ -266,6 +267,8 @@ type Association struct {
 	willSendShutdownAck      bool
 	willSendShutdownComplete bool
 	shutdownCompletePending  bool
+	// the shutdown sequence ran to its end (SHUTDOWN COMPLETE sent or received)
+	shutdownCompleted bool
 
 	willSendAbort      bool
 	willSendAbortCause errorCause
@@ -1052,6 +1055,15 @@ func (a *Association) Shutdown(ctx context.Context) error {
 
 	select {
 	case <-a.closeWriteLoopCh:
+		// The write loop also ends when the association is aborted, closed or
+		// loses its transport: only a completed shutdown sequence is a success.
+		a.lock.RLock()
+		completed := a.shutdownCompleted
+		a.lock.RUnlock()
+		if !completed {
+			return ErrShutdownIncomplete
+		}
+
 		return nil
 	case <-ctx.Done():
 		return ctx.Err()
@@ -1642,6 +1654,7 @@ func (a *Association) gatherOutboundShutdownPackets(rawPackets [][]byte) ([][]by
 		a.willSendShutdown = false
 
 		shutdownComplete := &chunkShutdownComplete{}
+		a.shutdownCompleted = true
 
 		raw, err := a.marshalPacket(a.createPacket([]chunk{shutdownComplete}))
 		if err != nil {
@@ -3383,6 +3396,7 @@ func (a *Association) handleShutdownComplete(_ *chunkShutdownComplete) error {
 	state := a.getState()
 	if state == shutdownAckSent {
 		a.t2Shutdown.stop()
+		a.shutdownCompleted = true
 
 		return a.close()
 	}
